@@ -128,6 +128,9 @@ package jsonpath
 //@ smt (declare-fun Kv (Int Val Val Int) Val)
 //@ smt (assert (forall ((b Int) (r Val) (v Val)) (! (>= (Kn b r v) 0) :pattern ((Kn b r v)))))
 //@ smt (declare-fun skey ((Array Str Bool) Int) Str)
+//@ smt (declare-fun IXn (Val Int) Int)
+//@ smt (declare-fun IXv (Val Int Int) Int)
+//@ smt (assert (forall ((s Val) (n Int)) (! (>= (IXn s n) 0) :pattern ((IXn s n)))))
 //@ smt (declare-fun WFnode (Val) Bool)
 //@ smt (declare-fun WFquery (Val) Bool)
 //@ smt (declare-fun WFsub (Val) Bool)
@@ -203,8 +206,38 @@ package jsonpath
 //@ spec RLwildcardList(n *syntaxChildWildcardIdentifier) bool = (forall r Val, c Val {RLn(n, r, c)} :: isType(c, []interface{}) ==> RLn(n, r, c) == sumL(n.syntaxBasicNode, r, A_Val[arr(listOf(c))], off(listOf(c)), len(listOf(c)))) && (forall r Val, c Val, x {RLv(n, r, c, x)} :: isType(c, []interface{}) && 0 <= x && x < RLn(n, r, c) ==> RLv(n, r, c, x) == Kv(n.syntaxBasicNode, r, A_Val[arr(listOf(c))][idxOf(off(listOf(c)), segL(n.syntaxBasicNode, r, A_Val[arr(listOf(c))], off(listOf(c)), len(listOf(c)), x))], x - sumL(n.syntaxBasicNode, r, A_Val[arr(listOf(c))], off(listOf(c)), segL(n.syntaxBasicNode, r, A_Val[arr(listOf(c))], off(listOf(c)), len(listOf(c)), x))))
 //@ spec RLwildcardDef(n *syntaxChildWildcardIdentifier) bool = RLok(n) ==> Kok(n.syntaxBasicNode) && RLwildcardList(n) && RLwildcardMap(n) && (forall r Val, c Val {RLn(n, r, c)} :: !isType(c, []interface{}) && !isType(c, map[string]interface{}) ==> RLn(n, r, c) == 0)
 //@ spec WFwildcardDef(n *syntaxChildWildcardIdentifier) bool = RLwildcardDef(n) && n != nil && height(n) == hgt(n.syntaxBasicNode) && WFbasic(n.syntaxBasicNode) && errRT(n.syntaxBasicNode) && !chainSingle(n)
-//@ spec WFunionDef(n *syntaxUnionQualifier) bool = !RLok(n) && n != nil && height(n) == hgt(n.syntaxBasicNode) && WFunionAt(n) && (chainSingle(n) ==> singleNext(n.syntaxBasicNode) && len(n.subscripts) == 1 && isType(elemAt(n.subscripts, off(n.subscripts)), *syntaxIndexSubscript))
-//@ spec WFmultiDef(n *syntaxChildMultiIdentifier) bool = !RLok(n) && n != nil && height(n) == hgt(n.syntaxBasicNode) && WFbasic(n.syntaxBasicNode) && errRT(n.syntaxBasicNode) && wf(n.identifiers) && (arr(n.identifiers) == 0 || RO(n.identifiers)) && (forall k {elemAt(n.identifiers, k)} :: off(n.identifiers) <= k && k < off(n.identifiers) + len(n.identifiers) ==> elemAt(n.identifiers, k) != nil && WFnode(elemAt(n.identifiers, k)) && height(elemAt(n.identifiers, k)) < height(n) && (isType(elemAt(n.identifiers, k), *syntaxChildSingleIdentifier) ==> asType(elemAt(n.identifiers, k), *syntaxChildSingleIdentifier) != nil)) && (n.isAllWildcard ==> WFunionAt(n.unionQualifier) && WFnode(n.unionQualifier) && height(n.unionQualifier) < height(n)) && !chainSingle(n)
+// A union applies the continuation to the elements its subscripts select, subscript by subscript in written order and,
+// within a subscript, in the order of its index sequence (duplicates kept).  sumI: prefix sums within one subscript;
+// sumU: over the subscripts; segI / segU: the segment of a position (as for sumL).
+//@ smt (declare-fun sumI (Int Val (Array Int Val) Int Val Int Int) Int)
+//@ smt (declare-fun segI (Int Val (Array Int Val) Int Val Int Int) Int)
+//@ smt (declare-fun sumU (Int Val (Array Int Val) Int Int (Array Int Val) Int Int) Int)
+//@ smt (declare-fun segU (Int Val (Array Int Val) Int Int (Array Int Val) Int Int Int) Int)
+//@ smt (assert (forall ((b Int) (r Val) (A (Array Int Val)) (o Int) (s Val) (n Int)) (! (= (sumI b r A o s n 0) 0) :pattern ((sumI b r A o s n 0)))))
+//@ smt (assert (forall ((b Int) (r Val) (A (Array Int Val)) (o Int) (s Val) (n Int) (k Int)) (! (=> (<= 0 k) (= (sumI b r A o s n (+ k 1)) (+ (sumI b r A o s n k) (Kn b r (select A (idx o (IXv s n k))))))) :pattern ((sumI b r A o s n k) (IXv s n k)))))
+//@ smt (assert (forall ((b Int) (r Val) (A (Array Int Val)) (o Int) (s Val) (n Int) (y Int)) (! (=> (and (<= 0 y) (< y (sumI b r A o s n (IXn s n)))) (and (<= 0 (segI b r A o s n y)) (< (segI b r A o s n y) (IXn s n)) (<= (sumI b r A o s n (segI b r A o s n y)) y) (< y (sumI b r A o s n (+ (segI b r A o s n y) 1))))) :pattern ((segI b r A o s n y)))))
+//@ smt (assert (forall ((b Int) (r Val) (A (Array Int Val)) (o Int) (n Int) (S (Array Int Val)) (so Int)) (! (= (sumU b r A o n S so 0) 0) :pattern ((sumU b r A o n S so 0)))))
+//@ smt (assert (forall ((b Int) (r Val) (A (Array Int Val)) (o Int) (n Int) (S (Array Int Val)) (so Int) (v Int)) (! (=> (<= 0 v) (= (sumU b r A o n S so (+ v 1)) (+ (sumU b r A o n S so v) (sumI b r A o (select S (idx so v)) n (IXn (select S (idx so v)) n))))) :pattern ((sumU b r A o n S so v) (select S (idx so v))))))
+//@ smt (assert (forall ((b Int) (r Val) (A (Array Int Val)) (o Int) (n Int) (S (Array Int Val)) (so Int) (p Int) (x Int)) (! (=> (and (<= 0 x) (< x (sumU b r A o n S so p)) (<= 0 p)) (and (<= 0 (segU b r A o n S so p x)) (< (segU b r A o n S so p x) p) (<= (sumU b r A o n S so (segU b r A o n S so p x)) x) (< x (sumU b r A o n S so (+ (segU b r A o n S so p x) 1))))) :pattern ((segU b r A o n S so p x)))))
+//@ spec subAt(u *syntaxUnionQualifier, v int) any = A_Val[arr(u.subscripts)][idxOf(off(u.subscripts), v)]
+//@ spec elemI(s []interface{}, sub any, t int) any = A_Val[arr(s)][idxOf(off(s), IXv(sub, len(s), t))]
+//@ spec sumIof(b *syntaxBasicNode, r any, s []interface{}, sub any, k int) int = sumI(b, r, A_Val[arr(s)], off(s), sub, len(s), k)
+//@ spec segIof(b *syntaxBasicNode, r any, s []interface{}, sub any, y int) int = segI(b, r, A_Val[arr(s)], off(s), sub, len(s), y)
+//@ spec sumUof(u *syntaxUnionQualifier, r any, s []interface{}, v int) int = sumU(u.syntaxBasicNode, r, A_Val[arr(s)], off(s), len(s), A_Val[arr(u.subscripts)], off(u.subscripts), v)
+//@ spec segUof(u *syntaxUnionQualifier, r any, s []interface{}, x int) int = segU(u.syntaxBasicNode, r, A_Val[arr(s)], off(s), len(s), A_Val[arr(u.subscripts)], off(u.subscripts), len(u.subscripts), x)
+//@ spec RLunionDef(n *syntaxUnionQualifier) bool = RLok(n) ==> Kok(n.syntaxBasicNode) && (forall r Val, c Val {RLn(n, r, c)} :: RLn(n, r, c) == (isType(c, []interface{}) ? sumUof(n, r, listOf(c), len(n.subscripts)) : 0)) && (forall r Val, c Val, x {RLv(n, r, c, x)} :: isType(c, []interface{}) && 0 <= x && x < RLn(n, r, c) ==> RLv(n, r, c, x) == Kv(n.syntaxBasicNode, r, elemI(listOf(c), subAt(n, segUof(n, r, listOf(c), x)), segIof(n.syntaxBasicNode, r, listOf(c), subAt(n, segUof(n, r, listOf(c), x)), x - sumUof(n, r, listOf(c), segUof(n, r, listOf(c), x)))), x - sumUof(n, r, listOf(c), segUof(n, r, listOf(c), x)) - sumIof(n.syntaxBasicNode, r, listOf(c), subAt(n, segUof(n, r, listOf(c), x)), segIof(n.syntaxBasicNode, r, listOf(c), subAt(n, segUof(n, r, listOf(c), x)), x - sumUof(n, r, listOf(c), segUof(n, r, listOf(c), x))))))
+//@ spec WFunionDef(n *syntaxUnionQualifier) bool = RLunionDef(n) && n != nil && height(n) == hgt(n.syntaxBasicNode) && WFunionAt(n) && (chainSingle(n) ==> singleNext(n.syntaxBasicNode) && len(n.subscripts) == 1 && isType(elemAt(n.subscripts, off(n.subscripts)), *syntaxIndexSubscript))
+// A multi-name selector on an object is the concatenation, in written order, of what its inner selectors (names, wildcards)
+// select on that object; an all-wildcard one on an array is its union qualifier.
+//@ smt (declare-fun sumX (Val Val (Array Int Val) Int Int) Int)
+//@ smt (declare-fun segX (Val Val (Array Int Val) Int Int Int) Int)
+//@ smt (assert (forall ((r Val) (c Val) (I (Array Int Val)) (o Int)) (! (= (sumX r c I o 0) 0) :pattern ((sumX r c I o 0)))))
+//@ smt (assert (forall ((r Val) (c Val) (I (Array Int Val)) (o Int) (j Int)) (! (=> (<= 0 j) (= (sumX r c I o (+ j 1)) (+ (sumX r c I o j) (RLn (select I (idx o j)) r c)))) :pattern ((sumX r c I o j) (select I (idx o j))))))
+//@ smt (assert (forall ((r Val) (c Val) (I (Array Int Val)) (o Int) (m Int) (x Int)) (! (=> (and (<= 0 x) (< x (sumX r c I o m)) (<= 0 m)) (and (<= 0 (segX r c I o m x)) (< (segX r c I o m x) m) (<= (sumX r c I o (segX r c I o m x)) x) (< x (sumX r c I o (+ (segX r c I o m x) 1))))) :pattern ((segX r c I o m x)))))
+//@ spec sumXof(r any, c any, s []syntaxNode, j int) int = sumX(r, c, A_Val[arr(s)], off(s), j)
+//@ spec segXof(r any, c any, s []syntaxNode, x int) int = segX(r, c, A_Val[arr(s)], off(s), len(s), x)
+//@ spec RLmultiDef(n *syntaxChildMultiIdentifier) bool = RLok(n) ==> (forall k {elemAt(n.identifiers, k)} :: off(n.identifiers) <= k && k < off(n.identifiers) + len(n.identifiers) ==> RLok(elemAt(n.identifiers, k))) && (n.isAllWildcard ==> RLok(n.unionQualifier)) && (forall r Val, c Val {RLn(n, r, c)} :: RLn(n, r, c) == (isType(c, map[string]interface{}) ? sumXof(r, c, n.identifiers, len(n.identifiers)) : ((n.isAllWildcard && isType(c, []interface{})) ? RLn(n.unionQualifier, r, c) : 0))) && (forall r Val, c Val, x {RLv(n, r, c, x)} :: 0 <= x && x < RLn(n, r, c) ==> RLv(n, r, c, x) == (isType(c, map[string]interface{}) ? RLv(A_Val[arr(n.identifiers)][idxOf(off(n.identifiers), segXof(r, c, n.identifiers, x))], r, c, x - sumXof(r, c, n.identifiers, segXof(r, c, n.identifiers, x))) : RLv(n.unionQualifier, r, c, x)))
+//@ spec WFmultiDef(n *syntaxChildMultiIdentifier) bool = RLmultiDef(n) && n != nil && height(n) == hgt(n.syntaxBasicNode) && WFbasic(n.syntaxBasicNode) && errRT(n.syntaxBasicNode) && wf(n.identifiers) && (arr(n.identifiers) == 0 || RO(n.identifiers)) && (forall k {elemAt(n.identifiers, k)} :: off(n.identifiers) <= k && k < off(n.identifiers) + len(n.identifiers) ==> elemAt(n.identifiers, k) != nil && WFnode(elemAt(n.identifiers, k)) && height(elemAt(n.identifiers, k)) < height(n) && (isType(elemAt(n.identifiers, k), *syntaxChildSingleIdentifier) ==> asType(elemAt(n.identifiers, k), *syntaxChildSingleIdentifier) != nil && RLsingleDef(asType(elemAt(n.identifiers, k), *syntaxChildSingleIdentifier)))) && (n.isAllWildcard ==> WFunionAt(n.unionQualifier) && WFnode(n.unionQualifier) && height(n.unionQualifier) < height(n)) && !chainSingle(n)
 //@ spec WFrecursiveDef(n *syntaxRecursiveChildIdentifier) bool = !RLok(n) && n != nil && height(n) == hgt(n.syntaxBasicNode) && WFbasic(n.syntaxBasicNode) && errRT(n.syntaxBasicNode) && n.syntaxBasicNode.next != nil && !chainSingle(n)
 // A filter over an array applies the continuation to the elements for which the filter holds (RH), in index order.
 // sumF: prefix sums of the guarded steps; segF: the segment of a position; an all-false filter selects nothing (sum of zeros:
@@ -509,6 +542,9 @@ package jsonpath
 //@   ensures atmostone: isType(this, *syntaxIndexSubscript) ==> len(ret) <= 1
 //@   ensures inrange: forall k {elemAt(ret, k)} :: off(ret) <= k && k < off(ret) + len(ret) ==> 0 <= elemAt(ret, k) && elemAt(ret, k) < srcLength
 //@   ensures fresh: fresh(ret) && wf(ret)
+// Assumed (determinism of a pure function of the immutable subscript and the length): the list returned is the sequence
+// IXn/IXv of (subscript, length).  What that sequence is, is C11's business (first/succ/bounded/maximal, index, wildcard).
+//@   assume len(ret) == IXn(this, srcLength) && (forall k {ret[k]} {IXv(this, srcLength, k)} :: 0 <= k && k < len(ret) ==> ret[k] == IXv(this, srcLength, k))
 
 //@ func (*syntaxChildWildcardIdentifier).retrieve
 //@   props C01 C03 C04 C05 C06 C20 C15
@@ -545,24 +581,43 @@ package jsonpath
 //@   loop 1 invariant mono: Kok(i.syntaxBasicNode) ==> (forall t {sumLof(i.syntaxBasicNode, root, srcList, t)} :: 0 <= t && t <= rangeindex1 ==> 0 <= sumLof(i.syntaxBasicNode, root, srcList, t) && sumLof(i.syntaxBasicNode, root, srcList, t) + Kn(i.syntaxBasicNode, root, A_Val[arr(srcList)][idxOf(off(srcList), t)]) <= len(container.result) - old(len(container.result)))
 
 //@ func (*syntaxChildMultiIdentifier).retrieve
-//@   props C03 C04 C05 C06 C20 C15
+//@   props C01 C03 C04 C05 C06 C20 C15
 //@   implements syntaxNode.retrieve
 //@   unfold WFnode(this) ==> WFmultiDef(i)
 //@   ensures mismatch: !isType(current, map[string]interface{}) && !(i.isAllWildcard && isType(current, []interface{})) ==> mismatch(ret, i.errorRuntime, "object", current) && len(container.result) == old(len(container.result))
 
+//@ spec identAt(i *syntaxChildMultiIdentifier, t int) any = A_Val[arr(i.identifiers)][idxOf(off(i.identifiers), t)]
 //@ func (*syntaxChildMultiIdentifier).retrieveMap
-//@   props C03 C04 C05 C06 C07 C20
+//@   props C01 C03 C04 C05 C06 C07 C20
 //@   requires WFmultiDef(i)
 //@   include retrieveFrame
 //@   decreases 3*height(i) + 1
+//@   ensures count: RLok(i) ==> appended(container, sumXof(root, srcMap, i.identifiers, len(i.identifiers)))
+//@   ensures values: RLok(i) ==> (forall t, k {RLv(identAt(i, t), root, srcMap, k)} :: 0 <= t && t < len(i.identifiers) && 0 <= k && k < RLn(identAt(i, t), root, srcMap) ==> resAt(container, sumXof(root, srcMap, i.identifiers, t) + k) == RLv(identAt(i, t), root, srcMap, k))
+//@   ensures fails: RLok(i) && old(len(container.result)) == 0 ==> ((ret == nil) <==> sumXof(root, srcMap, i.identifiers, len(i.identifiers)) > 0)
 //@   loop 1 invariant bufInv(container) && errInv(deepestTextLen, deepestError)
+//@   loop 1 invariant cnt: RLok(i) ==> appended(container, sumXof(root, srcMap, i.identifiers, rangeindex1 + 1))
+//@   loop 1 invariant vals: RLok(i) ==> (forall t, k {RLv(identAt(i, t), root, srcMap, k)} :: 0 <= t && t <= rangeindex1 && 0 <= k && k < RLn(identAt(i, t), root, srcMap) ==> resAt(container, sumXof(root, srcMap, i.identifiers, t) + k) == RLv(identAt(i, t), root, srcMap, k))
+//@   loop 1 invariant mono: RLok(i) ==> (forall t {sumXof(root, srcMap, i.identifiers, t)} :: 0 <= t && t <= rangeindex1 ==> 0 <= sumXof(root, srcMap, i.identifiers, t) && sumXof(root, srcMap, i.identifiers, t) + RLn(identAt(i, t), root, srcMap) <= len(container.result) - old(len(container.result)))
 
 //@ func (*syntaxUnionQualifier).retrieve
-//@   props C03 C04 C05 C06 C07 C11 C20 C15
+//@   props C01 C03 C04 C05 C06 C07 C11 C20 C15
 //@   implements syntaxNode.retrieve
 //@   unfold WFnode(this) ==> WFunionDef(u)
 //@   ensures mismatch: !isType(current, []interface{}) ==> mismatch(ret, u.errorRuntime, "array", current) && len(container.result) == old(len(container.result))
 //@   loop 1 invariant bufInv(container) && errInv(deepestTextLen, deepestError)
+//@   loop 1 invariant ucnt: RLok(this) ==> appended(container, sumUof(u, root, srcArray, rangeindex1 + 1))
+//@   loop 1 invariant uvals: RLok(this) ==> (forall v, t, k {Kv(u.syntaxBasicNode, root, elemI(srcArray, subAt(u, v), t), k)} :: 0 <= v && v <= rangeindex1 && 0 <= t && t < IXn(subAt(u, v), len(srcArray)) && 0 <= k && k < Kn(u.syntaxBasicNode, root, elemI(srcArray, subAt(u, v), t)) ==> resAt(container, sumUof(u, root, srcArray, v) + sumIof(u.syntaxBasicNode, root, srcArray, subAt(u, v), t) + k) == Kv(u.syntaxBasicNode, root, elemI(srcArray, subAt(u, v), t), k))
+//@   loop 1 invariant umonoU: RLok(this) ==> (forall v {sumUof(u, root, srcArray, v)} :: 0 <= v && v <= rangeindex1 ==> 0 <= sumUof(u, root, srcArray, v) && sumUof(u, root, srcArray, v) + sumIof(u.syntaxBasicNode, root, srcArray, subAt(u, v), IXn(subAt(u, v), len(srcArray))) <= len(container.result) - old(len(container.result)))
+//@   loop 1 invariant umonoI: RLok(this) ==> (forall v, t {sumIof(u.syntaxBasicNode, root, srcArray, subAt(u, v), t)} :: 0 <= v && v <= rangeindex1 && 0 <= t && t < IXn(subAt(u, v), len(srcArray)) ==> 0 <= sumIof(u.syntaxBasicNode, root, srcArray, subAt(u, v), t) && sumIof(u.syntaxBasicNode, root, srcArray, subAt(u, v), t) + Kn(u.syntaxBasicNode, root, elemI(srcArray, subAt(u, v), t)) <= sumIof(u.syntaxBasicNode, root, srcArray, subAt(u, v), IXn(subAt(u, v), len(srcArray))))
+//@   loop 2 invariant uvals: RLok(this) ==> (forall v, t, k {Kv(u.syntaxBasicNode, root, elemI(srcArray, subAt(u, v), t), k)} :: 0 <= v && v <= rangeindex1 && 0 <= t && t < IXn(subAt(u, v), len(srcArray)) && 0 <= k && k < Kn(u.syntaxBasicNode, root, elemI(srcArray, subAt(u, v), t)) ==> resAt(container, sumUof(u, root, srcArray, v) + sumIof(u.syntaxBasicNode, root, srcArray, subAt(u, v), t) + k) == Kv(u.syntaxBasicNode, root, elemI(srcArray, subAt(u, v), t), k))
+//@   loop 2 invariant umonoU: RLok(this) ==> (forall v {sumUof(u, root, srcArray, v)} :: 0 <= v && v <= rangeindex1 ==> 0 <= sumUof(u, root, srcArray, v) && sumUof(u, root, srcArray, v) + sumIof(u.syntaxBasicNode, root, srcArray, subAt(u, v), IXn(subAt(u, v), len(srcArray))) <= len(container.result) - old(len(container.result)))
+//@   loop 2 invariant umonoI: RLok(this) ==> (forall v, t {sumIof(u.syntaxBasicNode, root, srcArray, subAt(u, v), t)} :: 0 <= v && v <= rangeindex1 && 0 <= t && t < IXn(subAt(u, v), len(srcArray)) ==> 0 <= sumIof(u.syntaxBasicNode, root, srcArray, subAt(u, v), t) && sumIof(u.syntaxBasicNode, root, srcArray, subAt(u, v), t) + Kn(u.syntaxBasicNode, root, elemI(srcArray, subAt(u, v), t)) <= sumIof(u.syntaxBasicNode, root, srcArray, subAt(u, v), IXn(subAt(u, v), len(srcArray))))
+//@   loop 2 invariant idx: len(rangeslice2) == IXn(subAt(u, rangeindex1 + 1), len(srcArray)) && (forall k {rangeslice2[k]} {IXv(subAt(u, rangeindex1 + 1), len(srcArray), k)} :: 0 <= k && k < len(rangeslice2) ==> rangeslice2[k] == IXv(subAt(u, rangeindex1 + 1), len(srcArray), k))
+//@   loop 2 invariant inonneg: RLok(this) ==> 0 <= sumIof(u.syntaxBasicNode, root, srcArray, subAt(u, rangeindex1 + 1), rangeindex2 + 1) && 0 <= sumUof(u, root, srcArray, rangeindex1 + 1)
+//@   loop 2 invariant icnt: RLok(this) ==> appended(container, sumUof(u, root, srcArray, rangeindex1 + 1) + sumIof(u.syntaxBasicNode, root, srcArray, subAt(u, rangeindex1 + 1), rangeindex2 + 1))
+//@   loop 2 invariant ivals: RLok(this) ==> (forall t, k {Kv(u.syntaxBasicNode, root, elemI(srcArray, subAt(u, rangeindex1 + 1), t), k)} :: 0 <= t && t <= rangeindex2 && 0 <= k && k < Kn(u.syntaxBasicNode, root, elemI(srcArray, subAt(u, rangeindex1 + 1), t)) ==> resAt(container, sumUof(u, root, srcArray, rangeindex1 + 1) + sumIof(u.syntaxBasicNode, root, srcArray, subAt(u, rangeindex1 + 1), t) + k) == Kv(u.syntaxBasicNode, root, elemI(srcArray, subAt(u, rangeindex1 + 1), t), k))
+//@   loop 2 invariant imono: RLok(this) ==> (forall t {sumIof(u.syntaxBasicNode, root, srcArray, subAt(u, rangeindex1 + 1), t)} :: 0 <= t && t <= rangeindex2 ==> 0 <= sumIof(u.syntaxBasicNode, root, srcArray, subAt(u, rangeindex1 + 1), t) && sumUof(u, root, srcArray, rangeindex1 + 1) + sumIof(u.syntaxBasicNode, root, srcArray, subAt(u, rangeindex1 + 1), t) + Kn(u.syntaxBasicNode, root, elemI(srcArray, subAt(u, rangeindex1 + 1), t)) <= len(container.result) - old(len(container.result)))
 //@   loop 1 invariant single: chainSingle(this) ==> len(container.result) <= old(len(container.result)) + rangeindex1 + 1
 //@   loop 2 invariant single: chainSingle(this) ==> len(container.result) <= old(len(container.result)) + rangeindex1 + 1 + rangeindex2 + 1 && len(rangeslice2) <= 1
 //@   loop 2 invariant bufInv(container) && errInv(deepestTextLen, deepestError) && wf(rangeslice2) && mine(rangeslice2) && arr(rangeslice2) != arr(container.result) && (forall k {elemAt(rangeslice2, k)} :: off(rangeslice2) <= k && k < off(rangeslice2) + len(rangeslice2) ==> 0 <= elemAt(rangeslice2, k) && elemAt(rangeslice2, k) < len(srcArray))
